@@ -1,12 +1,12 @@
 SPECIFICATION Spec
 CONSTANTS
   Timers = {"a", "b"}
-  Kinds <- KindsA
-  Periods <- PeriodsA
-  MaxNow = 4
-  EnvOps = {"stop", "abort"}
-  VirtualClock = FALSE
-  Instant = FALSE
+  Kinds <- KindsB
+  Periods <- PeriodsB
+  MaxNow = 3
+  EnvOps = {"stop", "kill", "abort"}
+  VirtualClock = TRUE
+  Instant = TRUE
   UnstartedKillsInterval = TRUE
 INVARIANTS
   TypeOk AfterOnce AfterResult NeverEarly Exact AbortStops NoDeliveryToDead HandledInOrder IntervalEnds Reasons IntervalSurvivesStart
